@@ -6,21 +6,23 @@ import (
 	"fmt"
 	"math/rand"
 	"sort"
+	"strings"
 )
 
 type profile struct {
-	Name         string  `json:"name"`
-	Keys         int     `json:"keys"`                 // number of real boundary keys
-	MaxID        uint64  `json:"max_id"`               // region ids 1..MaxID
-	Ops          int     `json:"ops"`                  // operations per history
-	Prefill      bool    `json:"prefill"`              // start from a fully covered key space
-	Stores       int     `json:"stores"`               // peers live on stores 1..Stores (at most 8)
-	Density      float64 `json:"density"`              // target: live regions / boundary intervals
-	Quiet        int     `json:"quiet,omitempty"`      // the first n operations load the world the way a start-up does: no store-record refresh, sparse comparisons
-	MacroEach    int     `json:"macro_each,omitempty"` // a store-wide burst (evacuate / return) about every n-th operation (0 = never)
-	NearEach     int     `json:"near_each"`            // lookups around the touched range every n-th operation
-	FullEach     int     `json:"full_each"`            // sampled broad comparison every n-th operation
-	CompleteEach int     `json:"complete_each"`        // complete comparison every n-th operation (and after the last)
+	Name         string   `json:"name"`
+	Keys         int      `json:"keys"`                 // number of real boundary keys
+	MaxID        uint64   `json:"max_id"`               // region ids 1..MaxID
+	Ops          int      `json:"ops"`                  // operations per history
+	Prefill      bool     `json:"prefill"`              // start from a fully covered key space
+	Stores       int      `json:"stores"`               // peers live on stores 1..Stores (at most 8)
+	Density      float64  `json:"density"`              // target: live regions / boundary intervals
+	StoreIDs     []uint64 `json:"store_ids,omitempty"`  // stores with a store record (default 1..8)
+	Quiet        int      `json:"quiet,omitempty"`      // the first n operations load the world the way a start-up does: no store-record refresh, sparse comparisons
+	MacroEach    int      `json:"macro_each,omitempty"` // a store-wide burst (evacuate / return) about every n-th operation (0 = never)
+	NearEach     int      `json:"near_each"`            // lookups around the touched range every n-th operation
+	FullEach     int      `json:"full_each"`            // sampled broad comparison every n-th operation
+	CompleteEach int      `json:"complete_each"`        // complete comparison every n-th operation (and after the last)
 }
 
 // op is one recorded operation of a history (self-contained: can be re-applied to any state).
@@ -40,6 +42,8 @@ type gen struct {
 	epoch uint64 // region epochs handed out so far (monotone unless a stale one is generated on purpose)
 	// noClone / noStale: used for pre-computed writer lanes of the concurrent phase
 	noClone, noStale bool
+	endKey           hexkey          // the world of this generator ends here ("" = unbounded)
+	banned           map[uint64]bool // region ids this generator must not use
 }
 
 func predKey(k hexkey) hexkey {
@@ -97,8 +101,11 @@ func newGen(rng *rand.Rand, prof profile) *gen {
 
 // start(i): i in 0..len(keys)-1 ... wait: index 0 is "", index i>0 is keys[i-1].
 func (g *gen) bound(i int) hexkey {
-	if i <= 0 || i > len(g.keys) {
-		return "" // 0 = -inf as a start; len+1 = +inf as an end
+	if i <= 0 {
+		return "" // 0 = -inf as a start
+	}
+	if i > len(g.keys) {
+		return g.endKey // len+1 = the end of the world (+inf unless restricted)
 	}
 	return g.keys[i-1]
 }
@@ -112,7 +119,7 @@ func (g *gen) startIndex(k hexkey) int {
 }
 
 func (g *gen) endIndex(k hexkey) int {
-	if k == "" {
+	if k == "" || k == g.endKey {
 		return len(g.keys) + 1
 	}
 	return 1 + sort.Search(len(g.keys), func(i int) bool { return g.keys[i] >= k })
@@ -272,7 +279,16 @@ func (g *gen) mutateSame0(sp *regionSpec) string {
 		}
 		return fs[g.rng.Intn(len(fs))]
 	}
-	switch k := g.rng.Intn(14); k {
+	switch k := g.rng.Intn(17); k {
+	case 14:
+		sp.AKeys += 1 + int64(g.rng.Intn(1000))
+		return "keys-only"
+	case 15:
+		sp.Flow += 1 + uint64(g.rng.Intn(1000))
+		return "flow-only"
+	case 16:
+		sp.Size = 1<<33 + int64(g.rng.Intn(1<<20)) // far beyond 32 bits
+		return "size-huge"
 	case 0, 1, 2:
 		old := sp.Size
 		sp.Size = g.randSize()
@@ -373,6 +389,10 @@ func (g *gen) finish(m *model, batch []op, o *op) {
 	sp := o.Spec
 	g.epoch++
 	sp.Ver, sp.ConfVer = g.epoch, g.epoch
+	sp.NilKeys = g.rng.Intn(2) == 0
+	if !strings.HasPrefix(o.Note, "same-range:") {
+		sp.AKeys, sp.Flow = int64(g.rng.Intn(100000)), uint64(g.rng.Intn(1<<20))
+	}
 	if g.rng.Intn(10) < 3 {
 		o.API = "check"
 		if !g.noStale && g.rng.Intn(12) == 0 {
@@ -505,7 +525,7 @@ func (g *gen) nextOps0(m *model) []op {
 	freshID := func() uint64 {
 		for try := 0; try < 20; try++ {
 			id := uint64(1 + rng.Intn(int(g.prof.MaxID)))
-			if m.get(id) == nil {
+			if m.get(id) == nil && !g.banned[id] {
 				return id
 			}
 		}
@@ -514,7 +534,7 @@ func (g *gen) nextOps0(m *model) []op {
 	newSpec := func(id uint64, i, j int) *regionSpec {
 		sp := &regionSpec{ID: id, Start: g.bound(i), End: g.bound(j), Size: g.randSize()}
 		if j > len(g.keys) {
-			sp.End = ""
+			sp.End = g.endKey
 		}
 		g.randPeers(sp)
 		g.via(sp)
@@ -526,7 +546,7 @@ func (g *gen) nextOps0(m *model) []op {
 		sp := e.spec.clone()
 		sp.Start, sp.End = g.bound(i), g.bound(j)
 		if j > len(g.keys) {
-			sp.End = ""
+			sp.End = g.endKey
 		}
 		if fresh {
 			g.randPeers(sp)
@@ -777,11 +797,12 @@ func (g *gen) prefillOps() []op {
 		}
 		sp := &regionSpec{ID: id, Start: g.bound(i), End: g.bound(j), Size: g.randSize()}
 		if j > len(g.keys) {
-			sp.End = ""
+			sp.End = g.endKey
 		}
 		g.randPeers(sp)
 		g.via(sp)
 		normalise(sp)
+		sp.NilKeys = g.rng.Intn(2) == 0
 		ops = append(ops, op{Kind: "set", Spec: sp, Note: "prefill"})
 		id++
 		i = j
